@@ -8,6 +8,8 @@ import logging
 
 
 class FileCache:
+    LOADING = 'loading'
+
     def __init__(self, max_memory=None, root_path=None):
         """
         Initializes the FileCache with a maximum memory limit and the root directory for file storage.
@@ -139,19 +141,26 @@ class FileCache:
         claim = len(new_file_contents)
         if claim > self.max_memory:
             raise MemoryError(f"requested file update larger than max_memory: {file_name} {claim} {self.max_memory}")
-        with self.file_futures_lock:
-            info = self.file_futures.get(file_name)
-            if info is None or not info[0]:
-                self._unload_file(file_name)
-                future = self.executor.submit(self._write_file, file_name, new_file_contents, use_fsync)
-                self.file_futures[file_name] = (True, claim, future)
-                write_applied = True
-            else:
-                assert info[0]
-                future = info[-1]
-                write_applied = False
-        future.result()
-        return write_applied
+        while True:
+            with self.file_futures_lock:
+                info = self.file_futures.get(file_name)
+                if info is None or not info[0]:
+                    self._unload_file(file_name)
+                    future = self.executor.submit(self._write_file, file_name, new_file_contents, use_fsync)
+                    self.file_futures[file_name] = (True, claim, future)
+                    write_applied = True
+                else:
+                    future = info[-1]
+                    write_applied = False
+            if info is not None and info[0] == self.LOADING:
+                # a load of this file is in flight: let it finish, then try again
+                if future.exception() is not None:
+                    with self.file_futures_lock:
+                        if self.file_futures.get(file_name) is info:
+                            del self.file_futures[file_name]
+                continue
+            future.result()
+            return write_applied
 
     def _unload_file(self, file_name):
         """
@@ -180,6 +189,10 @@ class FileCache:
         None
         """
         with self.file_futures_lock:
+            info = self.file_futures.get(file_name)
+            if info is not None and info[0]:
+                # in-flight load or write: nothing is cached yet
+                return
             self.file_access_times = [(t, fn) for t, fn in self.file_access_times if fn != file_name]
             heapq.heapify(self.file_access_times)
             self._unload_file(file_name)
@@ -236,7 +249,7 @@ class FileCache:
             if info is None:
                 tinfo(f"get_file: {file_name}")
                 future = self.executor.submit(self._load_file, file_name)
-                self.file_futures[file_name] = (False, claim, future)
+                self.file_futures[file_name] = (self.LOADING, claim, future)
             else:
                 tinfo(f"get_file [cached]: {file_name}")
                 future = info[-1]
